@@ -484,9 +484,7 @@ impl Mp4Track {
             let first_sample = stsc_entry.first_sample;
             let samples_per_chunk = stsc_entry.samples_per_chunk;
             if samples_per_chunk == 0 {
-                return Err(Error::InvalidData(
-                    "stsc entry with zero samples per chunk",
-                ));
+                return Err(Error::InvalidData("stsc entry with zero samples per chunk"));
             }
 
             let chunk_id = sample_id
@@ -535,9 +533,12 @@ impl Mp4Track {
                             )?;
                         }
                         let duration = trun.sample_durations[sample_idx];
-                        let start_time = base_start_time.checked_add(start_offset).ok_or(
-                            Error::InvalidData("attempt to calculate sample start time with overflow"),
-                        )?;
+                        let start_time =
+                            base_start_time
+                                .checked_add(start_offset)
+                                .ok_or(Error::InvalidData(
+                                    "attempt to calculate sample start time with overflow",
+                                ))?;
                         return Ok((start_time, duration));
                     }
                 }
